@@ -275,7 +275,11 @@ func findMatcherPos(expr string, within posrange.PositionRange, m *labels.Matche
 	re := regexp.MustCompile("(" + regexp.QuoteMeta(m.Name) + ")(?: *)" + m.Type.String() + "(?: *)" + `"` + regexp.QuoteMeta(m.Value) + `"`)
 	idx := re.FindStringSubmatchIndex(utils.GetQueryFragment(expr, within))
 	if idx == nil {
-		return within
+		// Callers expect End to point at the last character, not past it.
+		return posrange.PositionRange{
+			Start: within.Start,
+			End:   within.End - 1,
+		}
 	}
 	return posrange.PositionRange{
 		Start: within.Start + posrange.Pos(idx[0]),
